@@ -256,14 +256,20 @@ class ReplayChooser:
 class Shim:
     """A stand-in for the `threading` module bound to one scheduler."""
 
-    def __init__(self, sched):
+    def __init__(self, sched, post_yield=False):
+        """post_yield: locks created by this shim yield right after release() (so that
+        reads hoisted out of a critical section are exposed to other threads); off by
+        default because harnesses that log a record after a wrapped call returns need
+        'critical section + record' to be one scheduling step."""
         self.sched = sched
         s = sched
+        default_post_yield = post_yield
 
         class Lock:
             def __init__(self_):
                 self_.owner = None
                 self_.name = None
+                self_.post_yield = default_post_yield     # yield right after release (see release())
 
             def acquire(self_, blocking=True, timeout=-1):
                 me = s.me()
@@ -282,6 +288,10 @@ class Shim:
                 if self_.owner is None:
                     raise RuntimeError('release unlocked lock')
                 self_.owner = None
+                # another thread may run between a release and whatever the releaser
+                # does next (reads hoisted out of a critical section are exposed here)
+                if self_.post_yield and not s.killing:
+                    s.yield_point('lock.release')
 
             def locked(self_):
                 return self_.owner is not None
